@@ -91,6 +91,11 @@ func C10DiffKey(src, k, eref string) map[string]any {
 		"oattr":     base + k + ".style.opacity: 0.35\n",
 		"oattrnull": base + k + ".style.opacity: 0.35\n" + k + ".style.opacity: null\n",
 	}
+	// null on a key that names a chain of connections removes every link
+	chain := "ZZa -> ZZb -> ZZc: ZZl\n"
+	variants["chain"] = base + chain
+	variants["chainnull"] = base + chain + "ZZa -> ZZb -> ZZc: null\n"
+	variants["chainnullidx"] = base + chain + "(ZZa -> ZZb -> ZZc)[0]: null\n"
 	if eref != "" {
 		variants["eattr"] = base + eref + ".style.opacity: 0.35\n"
 		variants["eattrnull"] = base + eref + ".style.opacity: 0.35\n" + eref + ".style.opacity: null\n"
